@@ -374,7 +374,12 @@ MODULES["Sparse"] = dict(
         dict(name="sp_to_triplets", file=SPR, impl=SP_IMPL, fn="to_triplets", locals={"triplets": "vect"}),
         dict(name="sp_to_dense", file=SPR, impl=SP_IMPL, fn="to_dense"),
         dict(name="sp_insert", file=SPR, impl=SP_IMPL, fn="insert"),
+        # round two (package r2c2): sort_by_key(|t| t.1) = the stable insertion sort sort_by_col of Model/Sparse.v (std's
+        # sort_by_key is stable, the result of a stable sort is unique); `for t in triplets.drain(..)` = for_in, then empty
+        dict(name="sp_from_triplets", file=SPR, impl=SP_IMPL, fn="from_triplets", locals={"row_index": "vecn", "col_index": "vecn"}),
     ])
+METHODS[("vect", "sort_by_key:proj1", 0)] = dict(g="sort_by_col {0}", ret="unit", out=["recv"])
+PATHS[("Vector::create", 1)] = [dict(g="{0}", ret="vec", atom=True, args=["vec"]), dict(g="{0}", ret="vecn", atom=True, args=["vecn"])]
 
 # ---------------------------------------------------------------------------------------------------- Vector<f64> only (vec_f64.rs)
 # over an SArith F (sqrt, of_nat) with the two calls that are not IEEE primitives as Section variables, exactly as the
@@ -388,3 +393,411 @@ MODULES["Vec64"] = dict(
               paths={("f64::powf", 2): dict(g="powf {0} {1}", ret="elem", args=["elem", "elem"]),
                      ("f64::sqrt", 1): dict(g="sqrt {0}", ret="elem", args=["elem"])}),
     funcs=[dict(name=n, file=V_F64, impl=r"^Vector<f64>$", fn=n) for n in ["linspace", "powspace", "norm_2", "norm_p", "norm_inf"]])
+
+# ---------------------------------------------------------------------------------------------------- Iter (Model/Iter.v): round two
+# the four Krylov solvers of `impl Sparse<f64>` over an SArith.  norm_2 is the model's norm2 (Iter.v; = Vec64.norm_2 with
+# fabs := abs, the trusted reading powf(|x|, 2.0) = |x|*|x| of Model/Vector.v), identity_preconditioner the model's ident_pre
+# (proved equal to its source in SrcEqSparse.src_sp_ident_pre).  Result<usize, f64> is the model's iresult (IOk / IErr).
+# `while iter < max_iter { iter += 1; .. }` of solve_bicg: at most max_iter passes, so the fuel S max_iter is never exhausted
+# (the poison value Panic Guard is shown unreachable by the equality lemma).
+GTYPES["iresult"] = "(iresult F)"
+RUST_TYPES.append((r"^Result<usize,f64>$", "iresult"))
+IT_IMPL = r"^Sparse<f64>$"
+MODULES["Iter"] = dict(
+    imports="From OV Require Import Base.Panic Base.Arith Model.Vector Model.Matrix Model.Sparse Model.Iter gen.SrcPrelude.",
+    context=["Context {F : SArith}.", "Local Notation A := (SA F)."],
+    spec=dict(sarith=True,
+              result_enum=dict(ty="iresult", ok="IOk", err="IErr", ok_ty="usize", err_ty="elem"),
+              methods={("vec", "norm_2", 0): dict(g="norm2 {0}", ret="elem"),
+                       ("elem", "sqrt", 0): dict(g="sqrt {0}", ret="elem"),
+                       ("sp", "identity_preconditioner", 2): dict(g="ident_pre (sp_rows {0}) {1} {2}", ret="unit", fallible=True,
+                                                                  out=["arg1"], args=["vec", "vec"])}),
+    funcs=[
+        dict(name="solve_cg", file=SPR, impl=IT_IMPL, fn="solve_cg"),
+        dict(name="solve_bicg", file=SPR, impl=IT_IMPL, fn="solve_bicg",
+             **{"while": {1: dict(fuel="(S {max_iter})", on_exhaust="Panic Guard")}}),
+        dict(name="solve_bicgstab", file=SPR, impl=IT_IMPL, fn="solve_bicgstab"),
+        dict(name="solve_qmr", file=SPR, impl=IT_IMPL, fn="solve_qmr"),
+    ])
+
+# ---------------------------------------------------------------------------------------------------- Newton (Model/Newton.v): round two
+# Newton<f64> / Newton<Vec64> and Mat64::jacobian over any Arith (the model's NOps at NReal A: emb = id, mag = abs, divr = div).
+# `&dyn Fn(X) -> Y` parameters are function arguments X -> res Y (a closure may panic).  The model is instrumented (it also
+# returns the points at which the closures were called): the equality lemmas are erasure lemmas.
+# Callees: Vec64::norm_inf is the model's Newton.norm_inf (index panic on the empty vector, then the running maximum);
+# Mat64::jacobian is the model's jacobian with the call points dropped; Matrix::solve_basic(&mut self, b) is Model/Solve.v's
+# solve_basic, which returns the solution only -- the receiver is `killed` (any later read of it is refused).
+GTYPES.update({"ncfg_s": "(ncfg (T A) (T A))", "ncfg_v": "(ncfg (T A) (list (T A)))", "nres_s": "(nres (T A))", "nres_v": "(nres (list (T A)))"})
+RUST_TYPES += [(r"^Newton<f64>$", "ncfg_s"), (r"^Newton<Vec64>$", "ncfg_v"), (r"^Result<f64,f64>$", "nres_s"), (r"^Result<Vec64,Vec64>$", "nres_v")]
+for _c, _g in (("ncfg_s", "elem"), ("ncfg_v", "vec")):
+    FIELDS.update({(_c, "tol"): ("(tol {0})", "elem"), (_c, "delta"): ("(delta {0})", "elem"),
+                   (_c, "max_iter"): ("(max_iter {0})", "usize"), (_c, "guess"): ("(guess {0})", _g)})
+NWT, M_FUN = "src/newton.rs", "src/matrix/functions.rs"
+_NW_METHODS = {("vec", "norm_inf", 0): dict(g="Newton.norm_inf (NReal A) {0}", ret="elem", fallible=True),
+               ("mat", "solve_basic", 1): dict(g="solve_basic {0} {1}", ret="vec", fallible=True, args=["vec"], kills=["recv"])}
+_NW_PATHS = {("Mat64::jacobian", 3): dict(g="(let* jr := jacobian (NReal A) {1} {0} {2} in Ok (fst jr))", ret="mat", fallible=True, args=["vec", None, "elem"]),
+             ("Mat64::new", 3): dict(g="mat_new {0} {1} {2}", ret="mat", args=["usize", "usize", "elem"])}
+MODULES["Newton"] = dict(
+    imports="From OV Require Import Base.Panic Base.Arith Model.Vector Model.Matrix Model.Solve Model.Newton gen.SrcPrelude.",
+    spec=dict(lit2=True, methods=_NW_METHODS, paths=_NW_PATHS),
+    funcs=[
+        dict(name="newton_solve_f64", file=NWT, impl=r"^Newton<f64>$", fn="solve",
+             result_enum=dict(ty="nres_s", ok="NOk", err="NErr", ok_ty="elem", err_ty="elem")),
+        dict(name="newton_solve_vec64", file=NWT, impl=r"^Newton<Vec64>$", fn="solve",
+             result_enum=dict(ty="nres_v", ok="NOk", err="NErr", ok_ty="vec", err_ty="vec")),
+        dict(name="newton_solve_jacobian_vec64", file=NWT, impl=r"^Newton<Vec64>$", fn="solve_jacobian",
+             result_enum=dict(ty="nres_v", ok="NOk", err="NErr", ok_ty="vec", err_ty="vec")),
+        dict(name="jacobian_f64", file=M_FUN, impl=r"^Matrix<f64>$", fn="jacobian"),
+    ])
+
+# ---------------------------------------------------------------------------------------------------- Newton over Cmplx: round two
+# Newton<Cmplx> / Newton<Vector<Cmplx>> / Matrix::<Cmplx>::jacobian_cmplx: two scalar sorts, f64 = T (SA S) ("elem") and
+# Cmplx = Complex<f64> = T (CArith S) ("celem": the complex operators of Model/Complex.v through the Arith CArith S);
+# the model's NOps at NCplx S: emb d = Cmplx::new(d, 0.0) = mkC d zero, mag z = z.abs() = sqrt (abs_sqr z),
+# divr = Complex / f64 = cdiv_r.
+_r.SCALARS.add("celem")
+_r.LISTS["cvec"] = "celem"
+GTYPES.update({"celem": "(T CA)", "cvec": "(list (T CA))", "cmat": "(matrix CA)",
+               "ncfg_c": "(ncfg (T A) (T CA))", "ncfg_cv": "(ncfg (T A) (list (T CA)))", "nres_c": "(nres (T CA))", "nres_cv": "(nres (list (T CA)))"})
+RUST_TYPES += [(r"^Cmplx$", "celem"), (r"^Vector<Cmplx>$", "cvec"), (r"^Matrix<Cmplx>$", "cmat"),
+               (r"^Newton<Cmplx>$", "ncfg_c"), (r"^Newton<Vector<Cmplx>>$", "ncfg_cv"),
+               (r"^Result<Cmplx,Cmplx>$", "nres_c"), (r"^Result<Vector<Cmplx>,Vector<Cmplx>>$", "nres_cv")]
+for _c, _g in (("ncfg_c", "celem"), ("ncfg_cv", "cvec")):
+    FIELDS.update({(_c, "tol"): ("(tol {0})", "elem"), (_c, "delta"): ("(delta {0})", "elem"),
+                   (_c, "max_iter"): ("(max_iter {0})", "usize"), (_c, "guess"): ("(guess {0})", _g)})
+METHODS.update({("cvec", "size", 0): dict(g="length {0}", ret="usize"),
+                ("cmat", "set_col", 2): dict(g="set_col {0} {1} {2}", ret="unit", fallible=True, out=["recv"], args=["usize", "cvec"])})
+BINOPS.update({("-", "cvec", "cvec"): dict(g="vsub {0} {1}", ret="cvec", fallible=True),
+               ("/", "cvec", "celem"): dict(g="vdiv {0} {1}", ret="cvec", fallible=True),
+               ("/", "celem", "elem"): dict(g="cdiv_r {0} {1}", ret="celem", fallible=True)})
+ASSIGNOPS[("-=", "cvec", "cvec")] = dict(g="vsub_assign {0} {1}", ret="cvec", fallible=True)
+_NC_METHODS = {("cvec", "norm_inf", 0): dict(g="Newton.norm_inf (NCplx S) {0}", ret="elem", fallible=True),
+               ("celem", "abs", 0): dict(g="sqrt (abs_sqr {0})", ret="elem"),
+               ("cmat", "solve_basic", 1): dict(g="solve_basic {0} {1}", ret="cvec", fallible=True, args=["cvec"], kills=["recv"])}
+_NC_PATHS = {("Cmplx::new", 2): dict(g="(mkC {0} {1} : T CA)", ret="celem", atom=True, args=["elem", "elem"]),
+             ("Matrix::jacobian_cmplx", 3): dict(g="(let* jr := jacobian (NCplx S) {1} {0} (mkC {2} (@zero A)) in Ok (fst jr))", ret="cmat", fallible=True,
+                                                 args=["cvec", None, "elem"]),
+             ("Matrix::new", 3): dict(g="mat_new {0} {1} {2}", ret="cmat", args=["usize", "usize", "celem"])}
+MODULES["NewtonC"] = dict(
+    imports="From OV Require Import Base.Panic Base.Arith Model.Complex Model.Vector Model.Matrix Model.Solve Model.Newton gen.SrcPrelude.",
+    context=["Context {S : SArith}.", "Local Notation A := (SA S).", "Local Notation CA := (CArith S)."],
+    spec=dict(lit2=True, methods=_NC_METHODS, paths=_NC_PATHS),
+    funcs=[
+        dict(name="newton_solve_cmplx", file=NWT, impl=r"^Newton<Cmplx>$", fn="solve",
+             result_enum=dict(ty="nres_c", ok="NOk", err="NErr", ok_ty="celem", err_ty="celem")),
+        dict(name="newton_solve_vcmplx", file=NWT, impl=r"^Newton<Vector<Cmplx>>$", fn="solve",
+             result_enum=dict(ty="nres_cv", ok="NOk", err="NErr", ok_ty="cvec", err_ty="cvec")),
+        dict(name="newton_solve_jacobian_vcmplx", file=NWT, impl=r"^Newton<Vector<Cmplx>>$", fn="solve_jacobian",
+             result_enum=dict(ty="nres_cv", ok="NOk", err="NErr", ok_ty="cvec", err_ty="cvec")),
+        dict(name="jacobian_cmplx", file=M_FUN, impl=r"^Matrix<Cmplx>$", fn="jacobian_cmplx"),
+    ])
+
+# ---------------------------------------------------------------------------------------------------- Mesh (Model/Mesh.v): round two
+# src/mesh1d.rs, src/mesh2d.rs: storage paths, interpolation loop, trapezium rules (file I/O -- read/output/output_var -- and
+# the place-returning index_mut are not translated).  Sorts: "xelem" = the coordinate type X of Mesh1D<T, X> (only stored and
+# copied), "xvec" = Vector<X>, "vv" = Vec<Vector<T>>; "m1" = Mesh1D<T, X>, "m1f" = Mesh1D<T, f64> / Mesh1D<f64, f64>,
+# "m2" = Mesh2D<T> / Mesh2D<f64> (nodes are Vector<f64>: the model's X := T A).
+# The literals 0.5, 0.25, 1.0e-7 are the model's parameters half, quarter, snap: a regenerated function that uses any of them
+# takes all three, in this order (their values are tied by gen/Params.v and by the instances the checks run); f64::powf(v, 2.0) is read as v * v (Model/Mesh.v).
+_r.LISTS["xvec"] = "xelem"; _r.LISTS["vv"] = "vec"
+GTYPES.update({"xelem": "X", "xvec": "(list X)", "vv": "(list (list (T A)))", "m1": "(mesh1 A X)", "m1f": "(mesh1 A (T A))", "m2": "(mesh2 A (T A))"})
+RUST_TYPES += [(r"^X$", "xelem"), (r"^Vector<X>$", "xvec"), (r"^Vec<Vector<(T|f64)>>$", "vv"), (r"^Mesh1D<T,X>$", "m1"),
+               (r"^Mesh1D<(T|f64),f64>$", "m1f"), (r"^Mesh2D<(T|f64)>$", "m2")]
+for _m, _nt in (("m1", "xvec"), ("m1f", "vec")):
+    FIELDS.update({(_m, "nvars"): ("(m1_nvars {0})", "usize"), (_m, "nodes"): ("(m1_nodes {0})", _nt), (_m, "vars"): ("(m1_vars {0})", "vv")})
+    SETFIELDS.update({(_m, "vars"): "(mkM1 (m1_nvars {0}) (m1_nodes {0}) {1})"})
+    METHODS.update({(_m, "get_nodes_vars", 1): dict(g="get_nodes_vars1 {0} {1}", ret="vec", fallible=True, args=["usize"]),
+                    (_m, "set_nodes_vars", 2): dict(g="set_nodes_vars1 {0} {1} {2}", ret="unit", fallible=True, out=["recv"], args=["usize", "vec"])})
+_M2F = ["nvars", "nx", "ny", "x_nodes", "y_nodes", "vars"]
+_M2G = {"nvars": "m2_nvars", "nx": "m2_nx", "ny": "m2_ny", "x_nodes": "m2_x", "y_nodes": "m2_y", "vars": "m2_vars"}
+_M2T = {"nvars": "usize", "nx": "usize", "ny": "usize", "x_nodes": "vec", "y_nodes": "vec", "vars": "vv"}
+for _f in _M2F:
+    FIELDS[("m2", _f)] = ("(%s {0})" % _M2G[_f], _M2T[_f])
+SETFIELDS[("m2", "vars")] = "(with_vars2 {0} {1})"
+STRUCTS["Mesh1D"] = (["nvars", "nodes", "vars"], "(mkM1 {0} {1} {2})", "m1")
+STRUCTS["Mesh2D"] = (_M2F, "(mkM2 {0} {1} {2} {3} {4} {5})", "m2")
+METHODS.update({
+    ("xvec", "size", 0): dict(g="length {0}", ret="usize"),
+    ("vv", "push", 1): dict(g="{0} ++ [{1}]", ret="unit", out=["recv"], args=["vec"]),
+    ("m2", "get_nodes_vars", 2): dict(g="get_nodes_vars2 {0} {1} {2}", ret="vec", fallible=True, args=["usize", "usize"]),
+})
+MS1, MS2 = "src/mesh1d.rs", "src/mesh2d.rs"
+M1_GEN = r"^<T:Clone\+Number,X:Clone\+Number\+Copy>Mesh1D<T,X>$"
+M2_GEN = r"^<T:Clone\+Number>Mesh2D<T>$"
+MODULES["Mesh"] = dict(
+    imports="From OV Require Import Base.Panic Base.Arith Model.Vector Model.Matrix Model.Mesh gen.SrcPrelude.",
+    context=["Context {A : Arith} {X : Type}."],
+    lit_params=[("half", "(T A)"), ("quarter", "(T A)"), ("snap", "(T A)")],
+    spec=dict(lit2=True, literals={"0.5": "half", "0.25": "quarter", "1.0e-7": "snap"},
+              paths={("Mesh1D::new", 2): dict(g="mesh1_new {0} {1}", ret="m1f", args=["vec", "usize"]),
+                     ("f64::powf", 2): dict(g="mul {0} {0}", ret="elem", args=["elem", "elem"], require={1: "(add (@one A) (@one A))"})}),
+    funcs=[
+        dict(name="mesh1_new", file=MS1, impl=M1_GEN, fn="new", locals={"vars": "vv"}),
+        dict(name="mesh1_nnodes", file=MS1, impl=M1_GEN, fn="nnodes"),
+        dict(name="mesh1_nvars", file=MS1, impl=M1_GEN, fn="nvars"),
+        dict(name="mesh1_coord", file=MS1, impl=M1_GEN, fn="coord"),
+        dict(name="mesh1_set_nodes_vars", file=MS1, impl=M1_GEN, fn="set_nodes_vars"),
+        dict(name="mesh1_get_nodes_vars", file=MS1, impl=M1_GEN, fn="get_nodes_vars"),
+        dict(name="mesh1_nodes", file=MS1, impl=M1_GEN, fn="nodes"),
+        dict(name="mesh1_index", file=MS1, impl=r"^<T,X>Index<usize>forMesh1D<T,X>$", fn="index"),
+        dict(name="mesh1_interp", file=MS1, impl=r"^Mesh1D<f64,f64>$", fn="get_interpolated_vars"),
+        dict(name="mesh1_trapezium", file=MS1, impl=r"^Mesh1D<f64,f64>$", fn="trapezium"),
+        dict(name="mesh2_new", file=MS2, impl=M2_GEN, fn="new", locals={"vars": "vv"}),
+        dict(name="mesh2_nvars", file=MS2, impl=M2_GEN, fn="nvars"),
+        dict(name="mesh2_nnodes", file=MS2, impl=M2_GEN, fn="nnodes"),
+        dict(name="mesh2_coord", file=MS2, impl=M2_GEN, fn="coord"),
+        dict(name="mesh2_xnodes", file=MS2, impl=M2_GEN, fn="xnodes"),
+        dict(name="mesh2_ynodes", file=MS2, impl=M2_GEN, fn="ynodes"),
+        dict(name="mesh2_set_nodes_vars", file=MS2, impl=M2_GEN, fn="set_nodes_vars"),
+        dict(name="mesh2_get_nodes_vars", file=MS2, impl=M2_GEN, fn="get_nodes_vars"),
+        dict(name="mesh2_assign", file=MS2, impl=M2_GEN, fn="assign"),
+        dict(name="mesh2_cross_section_xnode", file=MS2, impl=M2_GEN, fn="cross_section_xnode"),
+        dict(name="mesh2_cross_section_ynode", file=MS2, impl=M2_GEN, fn="cross_section_ynode"),
+        dict(name="mesh2_var_as_matrix", file=MS2, impl=M2_GEN, fn="var_as_matrix"),
+        dict(name="mesh2_apply", file=MS2, impl=M2_GEN, fn="apply"),
+        dict(name="mesh2_trapezium", file=MS2, impl=r"^Mesh2D<f64>$", fn="trapezium"),
+        dict(name="mesh2_square_trapezium", file=MS2, impl=r"^Mesh2D<f64>$", fn="square_trapezium"),
+        dict(name="mesh2_index", file=MS2, impl=r"^<T>Index<\(usize,usize\)>forMesh2D<T>$", fn="index"),
+    ])
+
+# ---------------------------------------------------------------------------------------------------- ParDot (Model/ParDot.v): round two
+# Vector<f64>::dot_f64: the partition arithmetic (num_threads, chunk_size, start / end per worker, the checked slicing by the
+# main thread), the workers as VALUES (scope.spawn(|| BLOCK) = the computation of BLOCK; "handle" = res T), and the sum in
+# join (= spawn) order.  num_cpus::get() is the Section variable num_cpus_ (the model's parameter t).  Not modelled by a value
+# translation: the scheduling -- Model/ParDot.v's run_sched / Proofs/ParDot.v show the result independent of it.
+GTYPES.update({"handle": "(res (T A))", "handles": "(list (res (T A)))", "scope": "unit"})
+_r.LISTS["handles"] = "handle"
+METHODS[("handles", "push", 1)] = dict(g="{0} ++ [{1}]", ret="unit", out=["recv"], args=["handle"])
+METHODS[("index_range", "vec")] = dict(g="subslice {0} {1} {2}", ret="vec", fallible=True)
+MODULES["ParDot"] = dict(
+    imports="From OV Require Import Base.Panic Base.Arith Model.Vector Model.ParDot gen.SrcPrelude.",
+    context=["Context {A : Arith}.", "Variable num_cpus_ : nat."],
+    spec=dict(paths={("num_cpus::get", 0): dict(g="num_cpus_", ret="usize", atom=True)}),
+    funcs=[dict(name="dot_f64", file=V_F64, impl=r"^Vector<f64>$", fn="dot_f64", locals={"threads": "handles"})])
+
+# ---------------------------------------------------------------------------------------------------- MatNorms (Model/MatNorms.v): round two
+# the norms of `impl Matrix<f64>` (src/matrix/functions.rs) over an SArith.  f64::max(result, x) is the model's fmax (the
+# reading documented in Model/MatNorms.v: the running maximum is never NaN); f64::powf is the Section variable powf (libm).
+MODULES["MatNorms"] = dict(
+    imports="From OV Require Import Base.Panic Base.Arith Model.Vector Model.Matrix Model.MatNorms gen.SrcPrelude.",
+    context=["Context {F : SArith}.", "Variable powf : F -> F -> F.", "Local Notation A := (SA F)."],
+    spec=dict(sarith=True,
+              methods={("elem", "max", 1): dict(g="fmax {0} {1}", ret="elem", args=["elem"]),
+                       ("mat", "norm_p", 1): dict(g="(let* s := mnorm_p_sum (fun x => powf x {1}) {0} in let* ip := div (@one A) {1} in Ok (powf s ip))",
+                                                  ret="elem", fallible=True, args=["elem"])},
+              paths={("f64::powf", 2): dict(g="powf {0} {1}", ret="elem", args=["elem", "elem"])}),
+    funcs=[dict(name=n, file=M_FUN, impl=r"^Matrix<f64>$", fn=f) for n, f in
+           [("mnorm_1", "norm_1"), ("mnorm_inf", "norm_inf"), ("mnorm_p", "norm_p"), ("mnorm_frob", "norm_frob"), ("mnorm_max", "norm_max")]])
+
+# ---------------------------------------------------------------------------------------------------- VectorOps (Model/Vector.v): round two
+# the editing operations / constructors / find / resize of src/vector/{mod,operations,functions}.rs that round one left out.
+# Vec::insert(pos, x) is vinsert (Panic Index when pos > len), Vec::pop() the pair (removelast, last element as an Option),
+# Vec::resize_with(n, Default::default) is vresize (Default::default() = zero for the element types in use),
+# v.iter().position(|x| *x == value) is find_first v value 0.
+CONSTS["Default::default"] = ("(@zero A)", "elem")
+V_MOD, V_OPS = "src/vector/mod.rs", "src/vector/operations.rs"
+MODULES["VectorOps"] = dict(
+    imports="From OV Require Import Base.Panic Base.Arith Model.Vector gen.SrcPrelude.",
+    spec=dict(methods={("vec", "insert", 2): dict(g="vinsert {0} {1} {2}", ret="unit", fallible=True, out=["recv"], args=["usize", "elem"]),
+                       ("vec", "pop", 0): dict(g="(removelast {0}, last_opt {0})", ret=("opt", "elem"), out=["recv", "ret"]),
+                       ("vec", "resize_with", 2): dict(g="vresize {0} {1}", ret="unit", out=["recv"], args=["usize", "elem"], require={1: "(@zero A)"})}),
+    funcs=[
+        dict(name="vfind", file=V_FUN, impl=r"^<T:std::cmp::PartialEq>Vector<T>$", fn="find"),
+        dict(name="vresize", file=V_FUN, impl=r"^<T:std::default::Default>Vector<T>$", fn="resize"),
+        dict(name="vindex", file=V_OPS, impl=r"^<T>Index<usize>forVector<T>$", fn="index"),
+        dict(name="vclear", file=V_OPS, impl=r"^<T>Vector<T>$", fn="clear"),
+        dict(name="vswap", file=V_OPS, impl=r"^<T>Vector<T>$", fn="swap"),
+        dict(name="vpush", file=V_OPS, impl=r"^<T>Vector<T>$", fn="push"),
+        dict(name="vpush_front", file=V_OPS, impl=r"^<T>Vector<T>$", fn="push_front"),
+        dict(name="vinsert", file=V_OPS, impl=r"^<T>Vector<T>$", fn="insert"),
+        dict(name="vpop", file=V_OPS, impl=r"^<T>Vector<T>$", fn="pop"),
+        dict(name="vsize", file=V_MOD, impl=r"^<T>Vector<T>$", fn="size"),
+        dict(name="vnew", file=V_MOD, impl=r"^<T:Clone>Vector<T>$", fn="new"),
+        dict(name="vzeros", file=V_MOD, impl=r"^<T:Clone\+Number>Vector<T>$", fn="zeros"),
+        dict(name="vones", file=V_MOD, impl=r"^<T:Clone\+Number>Vector<T>$", fn="ones"),
+    ])
+
+# ---------------------------------------------------------------------------------------------------- Roots (Model/Roots.v): round two
+# `impl Polynomial<Cmplx>`: quadratic_solve, cubic_solve over the model's two-sorted RootArith RA (a Section variable):
+# "elem" = f64 = T (SA (RR RA)), "celem" = Cmplx = T (KK RA).  Cmplx::new / .real / .imag / conj / abs, Complex * f64,
+# f64 * Complex (which delegates to Complex * f64, complex/mod.rs:117-133), Complex / f64, f64::abs, f64::max are the
+# operations of RA; the libm-backed Complex::sqrt / pow / polar are RA's oracle operations osqrt / opow / opolar (fallible);
+# 0.5 is rhalf RA, f64::EPSILON reps RA, an integral literal n. / n.0 is `n as f64` (rlit RA n).
+_RT_BIN = {("*", "elem", "celem"): dict(g="kmulr RA {1} {0}", ret="celem"),
+           ("*", "celem", "elem"): dict(g="kmulr RA {0} {1}", ret="celem"),
+           ("/", "celem", "elem"): dict(g="kdivr RA {0} {1}", ret="celem", fallible=True)}
+_RT_METHODS = {("celem", "sqrt", 0): dict(g="osqrt RA {0}", ret="celem", fallible=True),
+               ("celem", "pow", 1): dict(g="opow RA {0} {1}", ret="celem", fallible=True, args=["celem"]),
+               ("celem", "conj", 0): dict(g="kconj RA {0}", ret="celem"),
+               ("celem", "abs", 0): dict(g="kabs RA {0}", ret="elem"),
+               ("elem", "abs", 0): dict(g="rfabs RA {0}", ret="elem"),
+               ("elem", "sqrt", 0): dict(g="sqrt {0}", ret="elem"),
+               ("cvec", "size", 0): dict(g="length {0}", ret="usize"), ("cvec", "len", 0): dict(g="length {0}", ret="usize")}
+_RT_PATHS = {("Cmplx::new", 2): dict(g="(mkk RA {0} {1})", ret="celem", atom=True, args=["elem", "elem"]),
+             ("Cmplx::zero", 0): dict(g="(@zero CA)", ret="celem", atom=True),
+             ("Cmplx::polar", 2): dict(g="opolar RA {0} {1}", ret="celem", fallible=True, args=["elem", "elem"]),
+             ("f64::max", 2): dict(g="rmax RA {0} {1}", ret="elem", args=["elem", "elem"]),
+             ("Vector::zeros", 1): dict(g="repeat (@zero CA) {0}", ret="cvec", args=["usize"])}
+RT_IMPL = r"^Polynomial<Cmplx>$"
+RUST_TYPES.append((r"^Polynomial<Cmplx>$", "cvec"))
+MODULES["Roots"] = dict(
+    imports="From OV Require Import Base.Panic Base.Arith Model.Complex gen.Params Model.Roots gen.SrcPrelude.",
+    context=["Variable RA : RootArith.", "Local Notation A := (SA (RR RA)).", "Local Notation CA := (KK RA)."],
+    spec=dict(sarith=True, lit_nat="(rlit RA {0})", literals={"0.5": "(rhalf RA)"}, binops=_RT_BIN, methods=_RT_METHODS, paths=_RT_PATHS,
+              fields={("celem", "real"): ("(kre RA {0})", "elem"), ("celem", "imag"): ("(kim RA {0})", "elem")},
+              consts={"f64::EPSILON": ("(reps RA)", "elem")}),
+    funcs=[
+        dict(name="quadratic_solve", file=P_MOD, impl=RT_IMPL, fn="quadratic_solve"),
+        dict(name="cubic_solve", file=P_MOD, impl=RT_IMPL, fn="cubic_solve"),
+        # laguer: MR / MT / MAXIT are compile-time constants (substituted), EPS = f64::EPSILON = reps RA, the table frac[] is
+        # the model's rfrac RA (its nine values are tied by gen/Params.v: LAGUER_FRAC)
+        dict(name="laguer", file=P_MOD, impl=RT_IMPL, fn="laguer", arrays={"frac": ("(rfrac RA)", 9)}),
+        # poly_solve: its callees are the model functions (each proved equal to its own source above); Self::laguer with its
+        # three `&mut` operands is the model's laguer with the trace projected away
+        dict(name="poly_solve", file=P_MOD, impl=RT_IMPL, fn="poly_solve"),
+        # the two public entry points: Polynomial<f64>::roots (every coefficient converted with Cmplx::new(c, 0.0)) and
+        # Polynomial<Cmplx>::roots (the coefficients copied)
+        dict(name="roots_f64", file=P_MOD, impl=r"^Polynomial<f64>$", fn="roots"),
+        dict(name="roots_cplx", file=P_MOD, impl=RT_IMPL, fn="roots"),
+    ])
+MODULES["Roots"]["spec"]["fields"][("cvec", "coeffs")] = ("{0}", "cvec")
+_RT_PATHS.update({
+    ("Polynomial::quadratic_solve", 3): dict(g="quadratic_solve RA {0} {1} {2}", ret="cvec", fallible=True, args=["celem"] * 3),
+    ("Polynomial::cubic_solve", 4): dict(g="cubic_solve RA {0} {1} {2} {3}", ret="cvec", fallible=True, args=["celem"] * 4),
+    ("Vector::new", 2): dict(g="repeat {1} {0}", ret="cvec", args=["usize", "celem"]),
+    ("Polynomial::poly_solve", 2): dict(g="(let* r := poly_solve RA {0} {1} in Ok (fst r))", ret="cvec", fallible=True, args=["cvec", "bool"]),
+    ("Self::laguer", 3): dict(g="(let* l := laguer RA {0} {1} in Ok ({0}, lx l, liters l))", ret="unit", fallible=True,
+                              out=["arg0", "arg1", "arg2"], args=["cvec", "celem", "usize"]),
+})
+
+# ---------------------------------------------------------------------------------------------------- Wrappers: round two
+# the consuming (by-value) operator forms, which delegate to the by-reference forms round one translated, the constructors /
+# accessors / Clone impls that only move fields around, Polynomial's Index and degree.  `x.clone()` is the identity in the
+# translation (trusted: Clone is deep); the Clone impls translated here are exactly that identity for the types of this crate.
+BINOPS.update({
+    ("+", "band", "band"): dict(g="band_add {0} {1}", ret="band", fallible=True),
+    ("-", "band", "band"): dict(g="band_sub {0} {1}", ret="band", fallible=True),
+    ("*", "band", "elem"): dict(g="band_scale {0} {1}", ret="band", fallible=True),
+    ("/", "band", "elem"): dict(g="band_div {0} {1}", ret="band", fallible=True),
+    ("*", "band", "vec"): dict(g="band_mul {0} {1}", ret="vec", fallible=True),
+    ("*", "mat", "mat"): dict(g="mat_mul {0} {1}", ret="mat", fallible=True),
+    ("*", "tri", "vec"): dict(g="tmul {0} {1}", ret="vec", fallible=True),
+})
+UNOPS[("-", "band")] = dict(g="band_neg {0}", ret="band", fallible=True)
+ASSIGNOPS.update({("+=", "band", "band"): dict(g="band_add_assign {0} {1}", ret="band", fallible=True),
+                  ("-=", "band", "band"): dict(g="band_sub_assign {0} {1}", ret="band", fallible=True)})
+RUST_TYPES += [(r"^Result<usize,&'staticstr>$", ("opt", "usize")), (r"^Newton<T>$", "ncfg_s"), (r"^\(f64,f64,usize,T\)$", ("tuple", ["elem", "elem", "usize", "elem"]))]
+for _f, _i in (("tol", 0), ("delta", 1), ("max_iter", 2), ("guess", 3)):
+    SETFIELDS[("ncfg_s", _f)] = "(mkCfg " + " ".join("{1}" if k == _i else "(%s {0})" % n for k, n in enumerate(["tol", "delta", "max_iter", "guess"])) + ")"
+STRUCTS["Polynomial"] = (["coeffs"], "{0}", "poly")
+ARI_B = "src/banded.rs"
+P_T = r"^<T>Polynomial<T>$"
+MODULES["Wrappers"] = dict(
+    imports="From OV Require Import Base.Panic Base.Arith Model.Vector Model.Matrix Model.Tridiag Model.Banded Model.Poly Model.Newton gen.SrcPrelude.",
+    funcs=[
+        # vector/arithmetic.rs
+        dict(name="vadd_ref", file=V_ARI, impl=r"Add<&Vector<T>>forVector<T>$", fn="add"),
+        dict(name="vadd_val", file=V_ARI, impl=r"Add<Vector<T>>forVector<T>$", fn="add"),
+        dict(name="vsub_ref", file=V_ARI, impl=r"Sub<&Vector<T>>forVector<T>$", fn="sub"),
+        dict(name="vsub_val", file=V_ARI, impl=r"Sub<Vector<T>>forVector<T>$", fn="sub"),
+        # matrix/arithmetic.rs
+        dict(name="mneg_val", file=M_ARI, impl=r"NegforMatrix<T>$", fn="neg"),
+        dict(name="madd_val", file=M_ARI, impl=r"Add<Matrix<T>>forMatrix<T>$", fn="add"),
+        dict(name="msub_val", file=M_ARI, impl=r"Sub<Matrix<T>>forMatrix<T>$", fn="sub"),
+        dict(name="mscale_val", file=M_ARI, impl=r"Mul<T>forMatrix<T>$", fn="mul"),
+        dict(name="mdiv_val", file=M_ARI, impl=r"Div<T>forMatrix<T>$", fn="div"),
+        dict(name="madd_assign_val", file=M_ARI, impl=r"^<T:Copy\+Number>AddAssignforMatrix<T>$", fn="add_assign"),
+        dict(name="msub_assign_val", file=M_ARI, impl=r"^<T:Copy\+Number>SubAssignforMatrix<T>$", fn="sub_assign"),
+        dict(name="mat_mul_val", file=M_ARI, impl=r"Mul<Matrix<T>>forMatrix<T>$", fn="mul"),
+        dict(name="mat_vec_mul_val", file=M_ARI, impl=r"Mul<Vector<T>>forMatrix<T>$", fn="mul"),
+        # matrix/mod.rs
+        dict(name="mat_empty", file="src/matrix/mod.rs", impl=r"^<T>Matrix<T>$", fn="empty"),
+        dict(name="mrows", file="src/matrix/mod.rs", impl=r"^<T>Matrix<T>$", fn="rows"),
+        dict(name="mcols", file="src/matrix/mod.rs", impl=r"^<T>Matrix<T>$", fn="cols"),
+        dict(name="mclone", file="src/matrix/mod.rs", impl=r"CloneforMatrix<T>$", fn="clone"),
+        # banded.rs
+        dict(name="band_empty", file=ARI_B, impl=r"^<T>Banded<T>$", fn="empty"),
+        dict(name="band_size", file=ARI_B, impl=r"^<T>Banded<T>$", fn="size"),
+        dict(name="band_size_below", file=ARI_B, impl=r"^<T>Banded<T>$", fn="size_below"),
+        dict(name="band_size_above", file=ARI_B, impl=r"^<T>Banded<T>$", fn="size_above"),
+        dict(name="band_compact", file=ARI_B, impl=r"^<T>Banded<T>$", fn="compact"),
+        dict(name="band_neg_val", file=ARI_B, impl=r"NegforBanded<T>$", fn="neg"),
+        dict(name="band_add_val", file=ARI_B, impl=r"Add<Banded<T>>forBanded<T>$", fn="add"),
+        dict(name="band_sub_val", file=ARI_B, impl=r"Sub<Banded<T>>forBanded<T>$", fn="sub"),
+        dict(name="band_scale_val", file=ARI_B, impl=r"Mul<T>forBanded<T>$", fn="mul"),
+        dict(name="band_div_val", file=ARI_B, impl=r"Div<T>forBanded<T>$", fn="div"),
+        dict(name="band_add_assign_val", file=ARI_B, impl=r"AddAssign<Banded<T>>forBanded<T>$", fn="add_assign"),
+        dict(name="band_sub_assign_val", file=ARI_B, impl=r"SubAssign<Banded<T>>forBanded<T>$", fn="sub_assign"),
+        dict(name="band_mul_val", file=ARI_B, impl=r"Mul<Vector<T>>forBanded<T>$", fn="mul"),
+        # tridiagonal.rs
+        dict(name="tempty", file=TRI, impl=TRI_T, fn="empty"),
+        dict(name="tsize", file=TRI, impl=TRI_T, fn="size"),
+        dict(name="tsubdiagonal", file=TRI, impl=TRI_T, fn="subdiagonal"),
+        dict(name="tmaindiagonal", file=TRI, impl=TRI_T, fn="maindiagonal"),
+        dict(name="tsuperdiagonal", file=TRI, impl=TRI_T, fn="superdiagonal"),
+        dict(name="tclone", file=TRI, impl=r"CloneforTridiagonal<T>$", fn="clone"),
+        dict(name="tmul_val", file=TRI, impl=r"Mul<Vector<T>>forTridiagonal<T>$", fn="mul"),
+        # polynomial
+        dict(name="padd_val", file=P_ARI, impl=r"Add<Polynomial<T>>forPolynomial<T>$", fn="add"),
+        dict(name="pneg_val", file=P_ARI, impl=r"NegforPolynomial<T>$", fn="neg"),
+        dict(name="psub_val", file=P_ARI, impl=r"Sub<Polynomial<T>>forPolynomial<T>$", fn="sub"),
+        dict(name="pmul_val", file=P_ARI, impl=r"Mul<Polynomial<T>>forPolynomial<T>$", fn="mul"),
+        dict(name="pscale_val", file=P_ARI, impl=r"Mul<T>forPolynomial<T>$", fn="mul"),
+        dict(name="pindex", file=P_ARI, impl=r"Index<usize>forPolynomial<T>$", fn="index"),
+        dict(name="pempty", file=P_MOD, impl=P_T, fn="empty"),
+        dict(name="pnew", file=P_MOD, impl=P_T, fn="new"),
+        dict(name="pquadratic", file=P_MOD, impl=P_T, fn="quadratic"),
+        dict(name="pcubic", file=P_MOD, impl=P_T, fn="cubic"),
+        dict(name="psize", file=P_MOD, impl=P_T, fn="size"),
+        dict(name="pdegree", file=P_MOD, impl=P_T, fn="degree",
+             result_enum=dict(ty=("opt", "usize"), ok="Some", err_const="None", ok_ty="usize")),
+        dict(name="pclone", file=P_MOD, impl=r"CloneforPolynomial<T>$", fn="clone"),
+        # vector/mod.rs
+        dict(name="vempty", file=V_MOD, impl=r"^<T>Vector<T>$", fn="empty"),
+        dict(name="vcreate", file=V_MOD, impl=r"^<T>Vector<T>$", fn="create"),
+        dict(name="vclone", file=V_MOD, impl=r"CloneforVector<T>$", fn="clone"),
+        # newton.rs
+        dict(name="newton_tolerance", file=NWT, impl=r"^<T>Newton<T>$", fn="tolerance"),
+        dict(name="newton_delta", file=NWT, impl=r"^<T>Newton<T>$", fn="delta"),
+        dict(name="newton_iterations", file=NWT, impl=r"^<T>Newton<T>$", fn="iterations"),
+        dict(name="newton_guess", file=NWT, impl=r"^<T>Newton<T>$", fn="guess"),
+        dict(name="newton_parameters", file=NWT, impl=r"^<T:Copy>Newton<T>$", fn="parameters"),
+    ])
+PATHS[("Self::new", 1)] = dict(g="{0}", ret="poly", atom=True, args=["vec"])
+PATHS[("Vec::<T>::new", 0)] = dict(g="(@nil (T A))", ret="vec", atom=True)
+
+# one generated file per family, so that a broken tie stays with the property that owns the family
+def _split_wrappers():
+    fam = {"v": "WrapVector", "m": "WrapMatrix", "band": "WrapBanded", "t": "WrapTridiag", "p": "WrapPoly", "newton": "WrapNewton"}
+    ent = MODULES.pop("Wrappers")
+    for f in ent["funcs"]:
+        n = f["name"]
+        key = "band" if n.startswith("band_") else "newton" if n.startswith("newton_") else "m" if n.startswith("m") else n[0]
+        MODULES.setdefault(fam[key], dict(imports=ent["imports"], funcs=[]))["funcs"].append(f)
+_split_wrappers()
+
+# ---------------------------------------------------------------------------------------------------- VecCmplx (Model/Vector.v, Model/Newton.v): round two
+# src/vector/vec_cmplx.rs: conj, real, norm_inf of Vector<Complex<T>> over CArith F
+V_CPX = "src/vector/vec_cmplx.rs"
+RUST_TYPES.append((r"^Vector<Complex<(T|f64)>>$", "cvec"))
+MODULES["VecCmplx"] = dict(
+    imports="From OV Require Import Base.Panic Base.Arith Model.Complex Model.Vector Model.Newton gen.SrcPrelude.",
+    context=["Context {F : SArith}.", "Local Notation A := (SA F).", "Local Notation CA := (CArith F)."],
+    spec=dict(methods={("celem", "conj", 0): dict(g="(conj {0} : T CA)", ret="celem", atom=True),
+                       ("celem", "abs", 0): dict(g="sqrt (abs_sqr {0})", ret="elem")},
+              paths={("Complex::zero", 0): dict(g="(@zero CA)", ret="celem", atom=True)},
+              fields={("cvec", "vec"): ("{0}", "cvec"), ("celem", "real"): ("(re {0})", "elem")}),
+    funcs=[
+        dict(name="vconj", file=V_CPX, impl=r"^<T:Clone\+Signed>Vector<Complex::<T>>$", fn="conj"),
+        dict(name="vreal", file=V_CPX, impl=r"^<T:Clone\+Number>Vector<Complex::<T>>$", fn="real"),
+        dict(name="cnorm_inf", file=V_CPX, impl=r"^Vector<Complex::<f64>>$", fn="norm_inf"),
+        # Tridiagonal::<Complex<T>>::conj (src/tridiagonal.rs): the three diagonals conjugated
+        dict(name="tconj", file=TRI, impl=r"Tridiagonal::<Complex::<T>>$", fn="conj"),
+    ])
+GTYPES["ctri"] = "(tridiag CA)"
+RUST_TYPES.append((r"^Tridiagonal<Complex<T>>$", "ctri"))
+MODULES["VecCmplx"]["spec"]["fields"].update({("ctri", "sub"): ("(tsub {0})", "cvec"), ("ctri", "main"): ("(tmain {0})", "cvec"),
+                                               ("ctri", "sup"): ("(tsup {0})", "cvec"), ("ctri", "n"): ("(tn {0})", "usize")})
+MODULES["VecCmplx"]["spec"]["methods"][("cvec", "conj", 0)] = dict(g="(vconj {0} : list (T CA))", ret="cvec", atom=True)
+MODULES["VecCmplx"]["spec"]["structs"] = {"Tridiagonal": (["sub", "main", "sup", "n"], "(@mkT CA {0} {1} {2} {3})", "ctri")}
+MODULES["VecCmplx"]["imports"] = "From OV Require Import Base.Panic Base.Arith Model.Complex Model.Vector Model.Matrix Model.Tridiag Model.Newton gen.SrcPrelude."
